@@ -6,6 +6,13 @@ inputs as the real `crop_pointcloud`, `DynamicObject.crop_pointcloud / get_insid
 point_exist`, `SensingFrameResult.evaluate_frame` and `SensingEvaluationManager.add_frame_result`, and the
 row-index sets, counts, result lists by GT id and non-detection sets are compared exactly.
 
+Derived objects: the box of the property is the box an object describes NOW. A stream uses an object at one pose
+(crop, count, corners, footprint, DynamicObjectWithSensingResult, SensingFrameResult), derives a moved object from it
+the way the library does (interpolation: deepcopy + new ObjectState; convert_objects_to_global / _to_base_link: deepcopy
++ assignment of state.position / state.orientation; in-place re-assignment) and demands of the derived object exactly the
+selection of a freshly built object with the same state, the exact-rational selection for the state read back from it,
+the same answer when the call is repeated, an unchanged cloud and pose, and a still-correct original object.
+
 Oracle (independent of the model): exact-rational membership in the scaled footprint through the point's
 coordinates in the box frame (Cramer) and the closed z-range; an exact-rational *vertical-ray* crossing
 test for polygonal prisms (the code scans horizontally); partition; monotonicity in the scale; exactly-one
@@ -40,7 +47,13 @@ RULE = (
     "outside, every non-boundary point >= 1e-6 from each edge line; (iii) evaluate_frame with visibility "
     "annotations, thresholds straddling the counts, constant and distance-dependent scales, non-detection clouds; "
     "(iv) the manager's add_frame_result with polygonal non-detection areas, target uuids and a frame config that "
-    "differs from the manager's; malformed clouds/areas. Non-trivial = at least one point inside and one outside "
+    "differs from the manager's; malformed clouds/areas; (v) derived objects: 1-3 objects used at pose 1 (1-3 of crop in/out, "
+    "count, point_exist, get_corners, get_footprint, DynamicObjectWithSensingResult, evaluate_frame; at one or two scales; on the "
+    "same or another cloud), then moved by {deepcopy + new ObjectState, deepcopy + assignment, in-place assignment} x {position, "
+    "orientation, both} x {overlapping shift, far, mirrored}, by interpolate_object_list (t/8), by convert_objects_to_global / "
+    "_to_base_link (rational ego yaw, small and large ego motion), then cropped / counted / evaluated at the used and at unused "
+    "scales, with point clusters around both poses; non-trivial there = the move changes the inside set at the used scale. "
+    "Non-trivial = at least one point inside and one outside "
     "some area/box (or an error branch); distinct = distinct canonical JSON of the case"
 )
 TRUSTED = [
@@ -54,6 +67,9 @@ ASSUMPTIONS = [
     "construction and re-checked exactly); points exactly on a boundary are compared model-vs-code only and only "
     "where float arithmetic is exact (identity orientation, dyadic data, vertices, axis-parallel edges, edge midpoints)",
     "ground-truth objects are in base_link, carry no FP label, sizes > 0",
+    "derived objects: the pose is the one read back from the derived object (whether a conversion/interpolation computes the right "
+    "pose is not part of C12); frames on derived objects use a constant scale; a pose produced by a frame conversion carries float "
+    "noise in its height, so points within 1e-6 of its z-bounds are not judged against the exact oracle (still compared with a fresh object)",
     "the projected footprint of a rolled/pitched box is non-degenerate (det >= 0.3)",
     "arbitrary polygonal prisms: model = algorithm; geometric meaning validated against exact point-in-polygon, not proved",
 ]
@@ -122,6 +138,8 @@ def _box_inside(box, k: Fraction, row, cols) -> Optional[bool]:
     ok = abs(xi) < hl and abs(eta) < hw
     if cols >= 3:
         z, cz = _F(row[2]), _F(box["pos"][2])
+        if box.get("zfuzzy") and (abs(z - (cz - h / 2)) < MARGIN or abs(z - (cz + h / 2)) < MARGIN):
+            return None  # the centre height carries float noise (a converted pose): a point on the z-bound is not judged
         ok = ok and (cz - h / 2 <= z <= cz + h / 2)
     return ok
 
@@ -326,12 +344,34 @@ def _canon_frame(res, objs, rows, cols, nd_rows=None):
             "warning": lst(res.detection_warning_results), "nd_raw": nd}
 
 
+def _nd_ident(nd_raw, nd_clouds, cols):
+    """a reported cloud is a sub-array of one of the given clouds; identify its rows within that cloud"""
+    nd = []
+    given = [(i, r) for i, r in enumerate(nd_clouds)]
+    pos = 0
+    for arr in nd_raw:
+        found = None
+        while pos < len(given):
+            i, r = given[pos]
+            pos += 1
+            ix = _idx(arr, r, cols)
+            c3 = min(cols, 3)
+            if len(ix) > 0 and all(0 <= j < len(r) for j in ix) and ix == sorted(set(ix)) and \
+                    all(tuple(float(v) for v in arr[jj, :c3]) == tuple(float(v) for v in r[j][:c3]) for jj, j in enumerate(ix)):
+                found = {"src": i, "rows": ix}
+                break
+        nd.append(found if found is not None else {"src": -1, "rows": []})
+    return nd
+
+
 def run_impl(case):
     M = _mods()
     np = M["np"]
     k = case["kind"]
     cols = case["cols"]
     rows = case["cloud"]
+    if k == "derived":
+        return _run_derived(case)
     if k == "raw":
         cloud = _mk_cloud(rows, cols)
         area = [list(map(float, c)) for c in case["area"]]
@@ -456,6 +496,12 @@ def model_requests(case, out):
         return [{"op": "manager", "mcfg": _jcfg(case["mcfg"]), "fcfg": _jcfg(fcfg), "cols": case["cols"],
                  "objs": _jobjs(case["objs"], out["dists"]), "cloud": _jrows(case["cloud"]),
                  "areas": [[[core.q(v) for v in c] for c in a] for a in case["areas"]]}]
+    if k == "derived":
+        # the model is run on the state the derived objects HOLD after the derivation (read back from the objects)
+        if "err" in out:
+            return []
+        return [{"op": "crop_box", "cols": case["cols"], "cloud": _jrows(case["cloud"]), "box": _jbox(_state_box(st)),
+                 "scales": [core.q(s) for s in case["scales"]]} for st in out["state"]]
     return []
 
 
@@ -508,6 +554,24 @@ def compare(case, out, resps):
             return _cmp_lists("manager.crop_pointcloud", a, b)
         if [list(x) for x in a] != [list(x) for x in b]:
             return f"manager.crop_pointcloud: impl {str(a)[:160]} != model {str(b)[:160]}"
+        return None
+    if k == "derived":
+        for j, (fin, rr) in enumerate(zip(out["final"], resps)):
+            # a converted pose carries float noise in its height: rows on a z-bound are left out of the comparison
+            fz = _zfuzzy_rows(_state_box(out["state"][j]), case["cloud"], case["cols"])
+            for i, (a, b) in enumerate(zip(fin, rr["results"])):
+                for key in ("inside", "outside"):
+                    if isinstance(a[key], dict) or isinstance(b[key], dict):
+                        d = _cmp_lists(f"derived object #{j} ({case['how']}) scale#{i} {key}", a[key], b[key])
+                    else:
+                        d = _cmp_lists(f"derived object #{j} ({case['how']}) scale#{i} {key}", [v for v in a[key] if v not in fz],
+                                       [v for v in b[key] if v not in fz])
+                    if d:
+                        return d
+                if not fz:
+                    for key in ("num", "exist"):
+                        if a[key] != b[key]:
+                            return f"derived object #{j} ({case['how']}) scale#{i} {key}: impl {a[key]} != model {b[key]}"
         return None
 
 
@@ -586,8 +650,35 @@ def _oracle_detection(case, cfg, objs, out, rows, cols):
     return None
 
 
+def _oracle_nd_frame(objs, cfg, dists, nd_clouds, out_nd, cols):
+    """the non-detection report of evaluate_frame: per given cloud exactly the rows outside every scaled box"""
+    want = []
+    for src, nrows in enumerate(nd_clouds):
+        keep, undecided = [], False
+        for i, r in enumerate(nrows):
+            vals = [_box_inside(o["box"], _scale(cfg, _F(dd)), r, cols) for o, dd in zip(objs, dists)]
+            if any(v is None for v in vals):
+                undecided = True
+                continue
+            if not any(vals):
+                keep.append(i)
+        want.append((src, keep, undecided))
+    rep = {r["src"]: r["rows"] for r in out_nd}
+    if any(r["src"] < 0 for r in out_nd):
+        return "a reported non-detection cloud is not an ordered sub-array of a given cloud"
+    for src, keep, undecided in want:
+        if undecided:
+            continue
+        got = rep.get(src)
+        if (got or []) != keep:
+            return (f"non-detection cloud #{src}: reported rows {got} but the rows outside every scaled box are {keep}")
+    return None
+
+
 def oracle(case, out):
     k = case["kind"]
+    if k == "derived":
+        return _oracle_derived(case, out)
     rows, cols = case["cloud"], case["cols"]
     n = len(rows)
     if k == "raw":
@@ -673,27 +764,7 @@ def oracle(case, out):
             return d
         # non-detection
         if k == "frame":
-            want = []
-            for src, nrows in enumerate(case["nd_clouds"]):
-                keep, undecided = [], False
-                for i, r in enumerate(nrows):
-                    vals = [_box_inside(o["box"], _scale(fcfg, _F(dd)), r, cols) for o, dd in zip(objs, out["dists"])]
-                    if any(v is None for v in vals):
-                        undecided = True
-                        continue
-                    if not any(vals):
-                        keep.append(i)
-                want.append((src, keep, undecided))
-            rep = {r["src"]: r["rows"] for r in out["nd"]}
-            if any(r["src"] < 0 for r in out["nd"]):
-                return "a reported non-detection cloud is not an ordered sub-array of a given cloud"
-            for src, keep, undecided in want:
-                if undecided:
-                    continue
-                got = rep.get(src)
-                if (got or []) != keep:
-                    return (f"non-detection cloud #{src}: reported rows {got} but the rows outside every scaled box are {keep}")
-            return None
+            return _oracle_nd_frame(objs, fcfg, out["dists"], case["nd_clouds"], out["nd"], cols)
         # manager: rows of the cloud inside area a and outside every box (manager scale, all objects; frame scale, targets)
         reported = [r["rows"] for r in out["nd"]]
         want = []
@@ -1149,6 +1220,22 @@ def corpus():
                "nd_clouds": [cloud, [[0.0, 0.0, 0.0]], []]})
     cs.append({"kind": "frame", "cols": 4, "cloud": cloud, "objs": [], "cfg": {"s0": 1.0, "s100": 2.0, "min_points": 1, "uuids": None, "mode": "dist"},
                "nd_clouds": [cloud, []]})
+    # derived objects: a ground truth evaluated in base_link, then expressed in the map frame (a quarter turn and a shift) and
+    # cropped at the same scale; and an annotation moved in place between two frames
+    car = {"pos": [10.0, 0.0, 1.0], "quat": ["1", "0", "0", "1/8"], "size": [2.0, 4.0, 2.0], "mode": "yaw"}
+    ego = {"pos": [100.0, 50.0, 0.0], "quat": ["1", "0", "0", "1"]}
+    dcfg = {"s0": 1.25, "s100": 1.25, "min_points": 1, "uuids": None, "mode": "const"}
+    dcloud = [[10.0, 0.0, 1.0], [10.5, 0.375, 1.25], [30.0, 5.0, 1.0], [100.0, 60.0, 1.0], [99.625, 60.5, 1.25], [95.0, 80.0, 1.0]]
+    cs.append({"kind": "derived", "how": "to_global", "s": 1.25, "warm_scales": [1.25], "scales": [1.25, 1.0], "warm": ["frame"],
+               "warm_cloud": "same", "cfg": dcfg, "ego": ego, "cols": 4, "cloud": dcloud, "nd_clouds": [dcloud],
+               "objs": [{"box": car, "uuid": "d0", "vis": "FULL", "box2": _ego_apply(ego, car, inverse=False)}]})
+    car2 = {"pos": [5.0, 5.0, 0.5], "quat": ["1", "0", "0", "0"], "size": [2.0, 4.0, 2.0], "mode": "identity"}
+    car2b = dict(car2, pos=[5.0, -5.0, 0.5], mode="moved")
+    mcloud = [[5.0, 5.0, 0.5], [5.0, -5.0, 0.5], [5.5, -5.25, 0.0], [20.0, 0.0, 0.0]]
+    for how in ("inplace", "assign", "new_state"):
+        cs.append({"kind": "derived", "how": how, "s": 1.25, "warm_scales": [1.25], "scales": [1.25], "warm": ["frame"],
+                   "warm_cloud": "same", "cfg": dcfg, "cols": 3, "cloud": mcloud, "nd_clouds": [mcloud],
+                   "objs": [{"box": car2, "uuid": "d0", "vis": None, "box2": car2b, "moves": "pos"}]})
     return cs
 
 
@@ -1163,7 +1250,426 @@ def generate(rng, tier):
         cases.append(_gen_frame(rng, malformed=(i % 20 == 19)))
     for i in range(n[3]):
         cases.append(_gen_manager(rng, malformed=(i % 10 == 9)))
+    for i in range({"quick": 260, "thorough": 2000}[tier]):
+        cases.append(_gen_derived(rng))
     return cases
+
+
+
+# ----------------------------------------------------------------------------- derived objects (current state only)
+#
+# The library derives objects from objects: interpolation (deepcopy + a new ObjectState), convert_objects_to_global /
+# convert_objects_to_base_link (deepcopy + assignment of state.position / state.orientation), and users move an
+# annotation in place between frames. The property speaks about "the box": the box an object describes NOW. This stream
+# uses an object first (crop inside/outside, count, corners, footprint, DynamicObjectWithSensingResult,
+# SensingFrameResult) at pose 1, derives a moved object from it, and uses the derived object at the same and at other
+# scales. Demanded: exactly the selection of a freshly built object holding the same state, and the exact-rational one.
+
+_WARM_OPS = ("in", "out", "num", "exist", "corners", "footprint", "wsr", "frame")
+_DERIVED_HOWS = ("new_state", "assign", "inplace", "interp", "to_global", "to_base_link")
+
+
+def _mk_dobj(box, uuid, vis, frame="base_link"):
+    M = _mods()
+    q = M["Quaternion"](*[float(_F(v)) for v in box["quat"]])
+    fid = M["FrameID"].MAP if frame == "map" else M["FrameID"].BASE_LINK
+    return M["DynamicObject"](
+        100, fid, tuple(float(v) for v in box["pos"]), q,
+        M["Shape"](M["ShapeType"].BOUNDING_BOX, tuple(float(v) for v in box["size"])), (0.0, 0.0, 0.0), 0.9,
+        M["Label"](M["AutowareLabel"].CAR, "car", []), pointcloud_num=10, uuid=uuid, visibility=_visibility(vis),
+    )
+
+
+def _read_state(o):
+    fid = o.frame_id
+    fid = fid.value if hasattr(fid, "value") else str(fid)
+    return {"pos": [float(v) for v in o.state.position], "quat": [float(v) for v in o.state.orientation.elements],
+            "size": [float(v) for v in o.state.size], "frame": fid}
+
+
+def _simple_dyadic(v) -> bool:
+    f = _F(v)
+    return (f * 2**20).denominator == 1 and abs(f) < 2**20
+
+
+def _state_box(st):
+    """the box a (derived) object holds, from the state read back from it (floats are exact rationals)"""
+    b = {"pos": list(st["pos"]), "quat": list(st["quat"]), "size": list(st["size"])}
+    if not (_simple_dyadic(st["pos"][2]) and _simple_dyadic(st["size"][2])):
+        b["zfuzzy"] = True
+    return b
+
+
+def _same_pose(a, b) -> bool:
+    """position/size identical; orientation identical as a rotation (pyquaternion normalises a quaternion in place on first use)"""
+    if a["pos"] != b["pos"] or a["size"] != b["size"] or a["frame"] != b["frame"]:
+        return False
+    na = math.sqrt(sum(v * v for v in a["quat"]))
+    nb = math.sqrt(sum(v * v for v in b["quat"]))
+    return all(abs(x / na - y / nb) < 1e-12 for x, y in zip(a["quat"], b["quat"]))
+
+
+def _derive(case, objs):
+    import copy
+
+    M = _mods()
+    how = case["how"]
+    if how in ("new_state", "assign", "inplace"):
+        from perception_eval.common.object import ObjectState
+
+        res = []
+        for o, spec in zip(objs, case["objs"]):
+            b2 = spec["box2"]
+            p2 = tuple(float(v) for v in b2["pos"])
+            q2 = M["Quaternion"](*[float(_F(v)) for v in b2["quat"]])
+            mv = spec["moves"]
+            tgt = o if how == "inplace" else copy.deepcopy(o)
+            if how == "new_state":  # what interpolate_dynamic_object does
+                tgt.state = ObjectState(position=p2 if mv != "ori" else tgt.state.position,
+                                        orientation=q2 if mv != "pos" else tgt.state.orientation,
+                                        shape=o.state.shape, velocity=o.state.velocity)
+            else:  # what convert_objects_to_* do (on a deepcopy) / a user moving the annotation (in place)
+                if mv != "ori":
+                    tgt.state.position = p2
+                if mv != "pos":
+                    tgt.state.orientation = q2
+            res.append(tgt)
+        return res
+    if how == "interp":
+        from perception_eval.common.geometry import interpolate_object_list
+
+        others = [_mk_dobj(spec["boxb"], spec["uuid"], spec.get("vis")) for spec in case["objs"]]
+        return interpolate_object_list(objs, others, 0, 8, case["t"])
+    from perception_eval.common.dataset import convert_objects_to_base_link, convert_objects_to_global
+    from perception_eval.common.transform import HomogeneousMatrix
+
+    ego = HomogeneousMatrix(position=tuple(float(v) for v in case["ego"]["pos"]),
+                            rotation=M["Quaternion"](*[float(_F(v)) for v in case["ego"]["quat"]]),
+                            src=M["FrameID"].BASE_LINK, dst=M["FrameID"].MAP)
+    if how == "to_global":
+        return convert_objects_to_global(objs, ego)
+    if how == "to_base_link":
+        return convert_objects_to_base_link(objs, ego)
+    raise ValueError(how)
+
+
+def _derived_frame(objs, case, cloud, rows, cols):
+    M = _mods()
+    nds = [_mk_cloud(r, cols) for r in case["nd_clouds"]]
+    res = M["SensingFrameResult"](_frame_cfg(case["cfg"]), 100, "0")
+    res.evaluate_frame(list(objs), cloud, nds)
+    out = _canon_frame(res, objs, rows, cols)
+    out["nd"] = _nd_ident(out.pop("nd_raw"), case["nd_clouds"], cols)
+    return out
+
+
+def _run_derived(case):
+    from perception_eval.evaluation.sensing.sensing_result import DynamicObjectWithSensingResult
+
+    M = _mods()
+    np = M["np"]
+    cols, rows = case["cols"], case["cloud"]
+    s = float(case["s"])
+    minpts = case["cfg"]["min_points"]
+    src_frame = "map" if case["how"] == "to_base_link" else "base_link"
+    try:
+        cloud = _mk_cloud(rows, cols)
+        keep = cloud.copy()
+        wrows = rows if case["warm_cloud"] == "same" else rows[::2]
+        wcloud = cloud if case["warm_cloud"] == "same" else _mk_cloud(wrows, cols)
+        objs = [_mk_dobj(o["box"], o["uuid"], o.get("vis"), src_frame) for o in case["objs"]]
+        ref1 = [_idx(_mk_dobj(o["box"], o["uuid"], o.get("vis"), src_frame).crop_pointcloud(cloud, s), rows, cols) for o in case["objs"]]
+        # ---- use the objects at pose 1
+        pre = [[] for _ in objs]
+        for ws in case["warm_scales"]:
+            ws = float(ws)
+            for op in case["warm"]:
+                if op == "frame":
+                    if src_frame == "base_link" and ws == s:
+                        _derived_frame(objs, dict(case, nd_clouds=[r if case["warm_cloud"] == "same" else r[::2] for r in case["nd_clouds"]]),
+                                       wcloud, wrows, cols)
+                    continue
+                for i, o in enumerate(objs):
+                    if op == "in":
+                        pre[i].append({"scale": ws, "inside": _idx(o.crop_pointcloud(wcloud, ws, inside=True), wrows, cols)})
+                    elif op == "out":
+                        pre[i].append({"scale": ws, "outside": _idx(o.crop_pointcloud(wcloud, ws, inside=False), wrows, cols)})
+                    elif op == "num":
+                        pre[i].append({"scale": ws, "num": int(o.get_inside_pointcloud_num(wcloud, ws))})
+                    elif op == "exist":
+                        o.point_exist(wcloud, ws)
+                    elif op == "corners":
+                        o.get_corners(ws)
+                    elif op == "footprint":
+                        o.get_footprint(ws)
+                    elif op == "wsr":
+                        r = DynamicObjectWithSensingResult(o, wcloud, ws, minpts)
+                        pre[i].append({"scale": ws, "inside": _idx(r.inside_pointcloud, wrows, cols)})
+        # ---- derive moved objects the way the library does
+        der = _derive(case, objs)
+        state = [_read_state(o) for o in der]
+        fresh = [_mk_dobj(_state_box(st), spec["uuid"], spec.get("vis"), st["frame"]) for st, spec in zip(state, case["objs"])]
+        # ---- use the derived objects
+        final = []
+        for o, f in zip(der, fresh):
+            per = []
+            for sc in case["scales"]:
+                sc = float(sc)
+                per.append({
+                    "inside": _idx(o.crop_pointcloud(cloud, sc, inside=True), rows, cols),
+                    "outside": _idx(o.crop_pointcloud(cloud, sc, inside=False), rows, cols),
+                    "num": int(o.get_inside_pointcloud_num(cloud, sc)),
+                    "exist": bool(o.point_exist(cloud, sc)),
+                    "again": _idx(o.crop_pointcloud(cloud, sc, inside=True), rows, cols),
+                    "fresh_inside": _idx(f.crop_pointcloud(cloud, sc, inside=True), rows, cols),
+                    "fresh_outside": _idx(f.crop_pointcloud(cloud, sc, inside=False), rows, cols),
+                    "fresh_num": int(f.get_inside_pointcloud_num(cloud, sc)),
+                })
+            final.append(per)
+        wsr = []
+        for o, f in zip(der, fresh):
+            r = DynamicObjectWithSensingResult(o, cloud, s, minpts)
+            g = DynamicObjectWithSensingResult(f, cloud, s, minpts)
+            wsr.append({"inside": _idx(r.inside_pointcloud, rows, cols), "num": int(r.inside_pointcloud_num),
+                        "detected": bool(r.is_detected), "occluded": bool(r.is_occluded),
+                        "fresh_inside": _idx(g.inside_pointcloud, rows, cols), "fresh_detected": bool(g.is_detected)})
+        frame = fresh_frame = dists = None
+        if all(st["frame"] == "base_link" for st in state):
+            dists = [float(o.get_distance()) for o in der]
+            frame = _derived_frame(der, case, cloud, rows, cols)
+            fresh_frame = _derived_frame(fresh, case, cloud, rows, cols)
+        orig = None
+        if case["how"] != "inplace":  # the source objects still stand at pose 1
+            orig = [_idx(o.crop_pointcloud(cloud, s, inside=True), rows, cols) for o in objs]
+        state_after = [_read_state(o) for o in der]
+        return {"ref1": ref1, "pre": pre, "state": state, "final": final, "wsr": wsr, "frame": frame, "fresh_frame": fresh_frame,
+                "dists": dists, "orig": orig, "cloud_same": bool(np.array_equal(cloud, keep)),
+                "state_same": all(_same_pose(a, b) for a, b in zip(state, state_after))}
+    except Exception as e:  # noqa
+        import traceback
+
+        return {"err": type(e).__name__, "trace": traceback.format_exc()[-600:]}
+
+
+def _zfuzzy_rows(box, rows, cols):
+    if not box.get("zfuzzy") or cols < 3:
+        return set()
+    cz, h = _F(box["pos"][2]), _F(box["size"][2])
+    return {i for i, r in enumerate(rows) if abs(_F(r[2]) - (cz - h / 2)) < MARGIN or abs(_F(r[2]) - (cz + h / 2)) < MARGIN}
+
+
+def _oracle_derived(case, out):
+    if "err" in out:
+        return f"well-formed derived-object sequence ({case['how']}) rejected with {out['err']}: {out.get('trace', '')[-300:]}"
+    rows, cols = case["cloud"], case["cols"]
+    n = len(rows)
+    how = case["how"]
+    s = case["s"]
+    cfg = case["cfg"]
+    wrows = rows if case["warm_cloud"] == "same" else rows[::2]
+    if not out["cloud_same"]:
+        return "the point cloud handed to crop_pointcloud / evaluate_frame was modified"
+    if not out["state_same"]:
+        return "cropping changed the pose held by the object"
+    boxes2 = [_state_box(st) for st in out["state"]]
+    for i, spec in enumerate(case["objs"]):
+        who = f"object #{i} (derived by {how} from an object already used at scale {case['warm_scales']} with {case['warm']})"
+        # ---- the uses before the move (pose 1)
+        for p in out["pre"][i]:
+            exp, judged = _expect_box(spec["box"], _F(p["scale"]), wrows, cols)
+            for key in ("inside", "outside"):
+                if key in p:
+                    got = [j for j in p[key] if j in set(judged)]
+                    want = exp if key == "inside" else [j for j in judged if j not in set(exp)]
+                    if got != want:
+                        return f"object #{i} at its first pose, scale {p['scale']}: {key} rows {got[:12]} but geometrically {key} are {want[:12]}"
+            if "num" in p and not (len(exp) <= p["num"] <= len(exp) + len(wrows) - len(judged)):
+                return f"object #{i} at its first pose, scale {p['scale']}: get_inside_pointcloud_num {p['num']} but {len(exp)} rows are inside"
+        # ---- the uses after the move: the CURRENT state decides
+        b2 = boxes2[i]
+        cur = f"current pose {out['state'][i]['pos']} / {out['state'][i]['quat']}, first pose {spec['box']['pos']} / {spec['box']['quat']}"
+        by_scale = []
+        for sc, r in zip(case["scales"], out["final"][i]):
+            d = _partition(n, r["inside"], r["outside"], f"{who} crop_pointcloud(scale={sc})")
+            if d:
+                return d
+            for key in ("inside", "outside"):
+                if r[key] != r["fresh_" + key]:
+                    diff = sorted(set(r[key]) ^ set(r["fresh_" + key]))
+                    return (f"{who}: {key} rows at scale {sc} differ from those of a freshly built object with the same state at rows "
+                            f"{diff[:8]} (points {[rows[j] for j in diff[:3]]}); {cur}")
+            exp, judged = _expect_box(b2, _F(sc), rows, cols)
+            got = [j for j in r["inside"] if j in set(judged)]
+            if got != exp:
+                diff = sorted(set(got) ^ set(exp))
+                return (f"{who}: inside rows at scale {sc} differ from the exact footprint/z test of the CURRENT box at rows {diff[:8]} "
+                        f"(points {[rows[j] for j in diff[:3]]}); {cur}")
+            if r["num"] != len(r["inside"]) or r["exist"] != (r["num"] > 0) or r["fresh_num"] != r["num"]:
+                return f"{who}: scale {sc}: get_inside_pointcloud_num {r['num']} / point_exist {r['exist']} vs {len(r['inside'])} inside rows"
+            if r["again"] != r["inside"]:
+                return f"{who}: the same crop repeated gives {r['again'][:12]} after {r['inside'][:12]}"
+            by_scale.append((_F(sc), r["inside"]))
+        by_scale.sort(key=lambda t: t[0])
+        for (k1, in1), (k2, in2) in zip(by_scale, by_scale[1:]):
+            lost = [j for j in in1 if j not in set(in2)]
+            if k1 > 0 and lost:
+                return f"{who}: enlarging the scale {float(k1)} -> {float(k2)} removed inside rows {lost[:8]}"
+        w = out["wsr"][i]
+        exp, judged = _expect_box(b2, _F(s), rows, cols)
+        got = [j for j in w["inside"] if j in set(judged)]
+        if got != exp or w["inside"] != w["fresh_inside"]:
+            return (f"{who}: DynamicObjectWithSensingResult(scale {s}) holds inside rows {w['inside'][:12]}; geometrically inside the CURRENT "
+                    f"box are {exp[:12]}, a fresh object gives {w['fresh_inside'][:12]}; {cur}")
+        if w["num"] != len(w["inside"]) or w["detected"] != (w["num"] >= cfg["min_points"]) or \
+                w["occluded"] != (spec.get("vis") in ("NONE", "str:none")):
+            return f"{who}: sensing result num {w['num']} detected {w['detected']} occluded {w['occluded']} (threshold {cfg['min_points']}, visibility {spec.get('vis')})"
+        if out["orig"] is not None:
+            exp, judged = _expect_box(spec["box"], _F(s), rows, cols)
+            got = [j for j in out["orig"][i] if j in set(judged)]
+            if got != exp:
+                return (f"object #{i}: after a copy of it was moved ({how}) and cropped, the ORIGINAL object (still at {spec['box']['pos']}) "
+                        f"reports inside rows {got[:12]} but geometrically inside are {exp[:12]}")
+    # ---- the frame evaluated on the derived objects
+    fr = out["frame"]
+    if fr is not None:
+        objs2 = [{"box": b, "vis": spec.get("vis")} for b, spec in zip(boxes2, case["objs"])]
+        sub = {"success": fr["success"], "fail": fr["fail"], "warning": fr["warning"], "dists": out["dists"]}
+        d = _oracle_detection(case, cfg, objs2, sub, rows, cols)
+        if d:
+            return f"evaluate_frame on objects derived by {how}: " + d
+        d = _oracle_nd_frame(objs2, cfg, out["dists"], case["nd_clouds"], fr["nd"], cols)
+        if d:
+            return f"evaluate_frame on objects derived by {how}: " + d
+        ff = out["fresh_frame"]
+        for key in ("success", "fail", "warning", "nd"):
+            if fr[key] != ff[key]:
+                return (f"evaluate_frame on objects derived by {how}: {key} = {str(fr[key])[:160]} but freshly built objects with the same "
+                        f"states give {str(ff[key])[:160]}")
+    return None
+
+
+def _qmul(a, b):
+    aw, ax, ay, az = a
+    bw, bx, by, bz = b
+    return (aw * bw - ax * bx - ay * by - az * bz, aw * bx + ax * bw + ay * bz - az * by,
+            aw * by - ax * bz + ay * bw + az * bx, aw * bz + ax * by - ay * bx + az * bw)
+
+
+def _ego_apply(ego, box, inverse):
+    """nominal pose of a box after ego2map (or its inverse); ego rotation is a pure yaw (1, 0, 0, t): exact rationals"""
+    t = _F(ego["quat"][3])
+    w = _F(ego["quat"][0])
+    nn = w * w + t * t
+    c, sn = (w * w - t * t) / nn, 2 * w * t / nn
+    ex, ey, ez = (_F(v) for v in ego["pos"])
+    x, y, z = (_F(v) for v in box["pos"])
+    q1 = tuple(_F(v) for v in box["quat"])
+    if not inverse:
+        pos = (c * x - sn * y + ex, sn * x + c * y + ey, z + ez)
+        q = _qmul((w, 0, 0, t), q1)
+    else:
+        dx, dy = x - ex, y - ey
+        pos = (c * dx + sn * dy, -sn * dx + c * dy, z - ez)
+        q = _qmul((w, 0, 0, -t), q1)
+    return {"pos": [float(v) for v in pos], "quat": [str(v) for v in q], "size": list(box["size"]), "mode": "moved"}
+
+
+def _moved_box(rng, box, mv):
+    b = {"pos": list(box["pos"]), "quat": list(box["quat"]), "size": list(box["size"]), "mode": "moved"}
+    move = mv
+    if mv in ("pos", "both"):
+        x, y, z = box["pos"]
+        kind = rng.choice(["shift", "shift", "shift", "far", "mirror"])
+        if kind == "mirror" and (x, y) == (0.0, 0.0):
+            kind = "shift"
+        if kind == "shift":  # mostly overlapping the old box
+            while True:
+                dx, dy = _dy(rng, -3, 3), _dy(rng, -3, 3)
+                if (dx, dy) != (0.0, 0.0):
+                    break
+            b["pos"] = [x + dx, y + dy, z + rng.choice([0.0, 0.0, 0.5, -0.5, 1.0])]
+        elif kind == "far":
+            b["pos"] = [_dy(rng, -40, 40), _dy(rng, -40, 40), _dy(rng, -2, 2)]
+        else:
+            b["pos"] = [-x, -y, z]
+        move += ":" + kind
+    if mv in ("ori", "both"):
+        for _ in range(50):
+            qn = _gen_quat(rng, rng.choice(["identity", "yaw", "yaw", "yaw_flip", "full"]))
+            if _rot(qn) != _rot(box["quat"]):
+                b["quat"] = qn
+                break
+    return b, move
+
+
+def _gen_derived(rng, how=None):
+    how = how or rng.choice(["new_state", "assign", "inplace", "inplace", "interp", "to_global", "to_global", "to_base_link"])
+    pool = [0.75, 1.0, 1.0, 1.25, 1.5, 1.1, 1.2, 2.0]
+    s = rng.choice(pool)
+    others = sorted({x for x in pool if x != s})
+    warm_scales = [s] + ([rng.choice(others)] if rng.random() < 0.3 else [])
+    scales = [s] + rng.sample(others, rng.choice([0, 1, 1, 2]))
+    rng.shuffle(scales)
+    ops = [op for op in _WARM_OPS if not (op == "frame" and how == "to_base_link")]
+    warm = rng.sample(ops, rng.choice([1, 1, 2, 3]))
+    warm = [op for op in _WARM_OPS if op in warm]
+    case = {"kind": "derived", "how": how, "s": s, "warm_scales": warm_scales, "scales": scales, "warm": warm,
+            "warm_cloud": rng.choice(["same", "same", "sub"]),
+            "cfg": {"s0": s, "s100": s, "min_points": rng.choice([0, 1, 1, 2, 3, 5]), "uuids": None, "mode": "const"}}
+    if how in ("to_global", "to_base_link"):
+        if rng.random() < 0.3:  # a small ego motion: old and new boxes overlap
+            epos = [_dy(rng, -3, 3), _dy(rng, -3, 3), rng.choice([0.0, 0.5, -0.25])]
+            t = Fraction(rng.randint(-3, 3), 16)
+        else:
+            epos = [_dy(rng, -100, 100), _dy(rng, -100, 100), _dy(rng, -2, 2)]
+            t = Fraction(rng.randint(-24, 24), rng.choice([5, 7, 8, 12]))
+        if epos[0] == 0.0 and epos[1] == 0.0 and t == 0:
+            epos[0] = 2.5
+        case["ego"] = {"pos": epos, "quat": ["1", "0", "0", str(t)]}
+    if how == "interp":
+        case["t"] = rng.randint(1, 8)
+    nobj = rng.choice([1, 1, 2, 3])
+    all_scales = sorted(set(warm_scales + scales))
+    objs, rows = [], []
+    for i in range(nobj):
+        near = objs[-1]["box"]["pos"] if objs and rng.random() < 0.5 else None
+        b1 = _gen_box(rng, near=near)
+        if how == "to_base_link" and near is None:  # map coordinates around the ego position
+            b1["pos"] = [case["ego"]["pos"][0] + _dy(rng, -40, 40), case["ego"]["pos"][1] + _dy(rng, -40, 40), b1["pos"][2]]
+        spec = {"box": b1, "uuid": f"d{i}", "vis": rng.choice(_VIS)}
+        if how in ("new_state", "assign", "inplace"):
+            mv = rng.choice(["pos", "pos", "ori", "both"])
+            spec["box2"], spec["moves"] = _moved_box(rng, b1, mv)[0], mv
+        elif how == "interp":
+            bb, _ = _moved_box(rng, b1, rng.choice(["pos", "both", "both", "ori"]))
+            spec["boxb"] = bb
+            Q = _mods()["Quaternion"]
+            a = case["t"] / 8
+            qi = Q.slerp(Q(*[float(_F(v)) for v in b1["quat"]]), Q(*[float(_F(v)) for v in bb["quat"]]), a)
+            spec["box2"] = {"pos": [p + (r - p) * case["t"] / 8 for p, r in zip(b1["pos"], bb["pos"])],
+                            "quat": [float(v) for v in qi.elements], "size": list(b1["size"]), "mode": "moved"}
+        else:
+            spec["box2"] = _ego_apply(case["ego"], b1, inverse=(how == "to_base_link"))
+        objs.append(spec)
+        for b in (spec["box"], spec["box2"]):
+            r, _ = _box_points(rng, b, all_scales, rng.choice([3, 6, 10, 16]), boundary_ok=False)
+            rows.extend(r)
+    for _ in range(rng.choice([0, 4, 10])):
+        c = rng.choice(objs)[rng.choice(["box", "box2"])]["pos"]
+        rows.append([c[0] + _dy(rng, -8, 8, 16), c[1] + _dy(rng, -8, 8, 16), _dy(rng, -3, 3, 16)])
+    good = []
+    for r in rows:
+        if all(_clear_of_edges(b, k, r[0], r[1], 10 * MARGIN) for o in objs for b in (o["box"], o["box2"]) for k in all_scales):
+            good.append(r)
+    rng.shuffle(good)
+    cols = rng.choice([2, 3, 3, 4, 4, 5])
+    good = _dedupe(good, cols)
+    nd = []
+    for _ in range(rng.choice([0, 1, 1, 2])):
+        pr = rng.choice([0.3, 0.6, 1.0])
+        nd.append([list(r) for r in good if rng.random() < pr])
+    case.update({"cols": cols, "cloud": good, "objs": objs, "nd_clouds": nd})
+    return case
 
 
 # ----------------------------------------------------------------------------- bookkeeping
@@ -1185,6 +1691,43 @@ def branches(case, out):
         P = case["area"][:n]
         a2 = sum(P[i][0] * P[(i + 1) % n][1] - P[(i + 1) % n][0] * P[i][1] for i in range(n))
         b.append("raw:ccw" if a2 > 0 else "raw:cw(uint8 wrap)")
+        return b
+    if k == "derived":
+        b.append(f"derived:how:{case['how']}")
+        b.append(f"derived:nobj:{len(case['objs'])}")
+        b.append(f"derived:warm-cloud:{case['warm_cloud']}")
+        for op in case["warm"]:
+            b.append(f"derived:warm:{op}")
+        for o in case["objs"]:
+            if o.get("moves"):
+                b.append(f"derived:moves:{o['moves']}")
+        if "err" in out:
+            b.append("derived:err:" + str(out["err"]))
+            return b
+        if len(case["warm_scales"]) > 1:
+            b.append("derived:warmed-at-two-scales")
+        if any(sc != case["s"] and sc not in case["warm_scales"] for sc in case["scales"]):
+            b.append("derived:final-at-unused-scale")
+        if any(sc != case["s"] and sc in case["warm_scales"] for sc in case["scales"]):
+            b.append("derived:final-at-second-used-scale")
+        si = case["scales"].index(case["s"])
+        changed = [i for i in range(len(case["objs"])) if out["final"][i][si]["inside"] != out["ref1"][i]]
+        if changed:
+            b.append("derived:selection-changed-by-move")
+            if any(out["final"][i][si]["inside"] and out["ref1"][i] for i in changed):
+                b.append("derived:nonempty-before-and-after")
+        else:
+            b.append("trivial")
+        if any(_state_box(st).get("zfuzzy") for st in out["state"]):
+            b.append("derived:height-with-float-noise")
+        if out["frame"] is not None:
+            b.append("derived:frame-on-derived")
+            for key in ("success", "fail", "warning"):
+                if out["frame"][key]:
+                    b.append(f"derived:frame:{key}")
+            b.append(f"derived:frame:nd-reported:{min(len(out['frame']['nd']), 3)}")
+        if out["orig"] is not None:
+            b.append("derived:original-rechecked")
         return b
     if k == "box":
         b.append(f"box:{case['box']['mode']}")
@@ -1229,8 +1772,40 @@ def branches(case, out):
     return b
 
 
+def _shrink_derived(case):
+    if len(case["objs"]) > 1:
+        for i in range(len(case["objs"])):
+            yield dict(case, objs=case["objs"][:i] + case["objs"][i + 1:])
+    if case["nd_clouds"]:
+        yield dict(case, nd_clouds=[])
+    if len(case["warm"]) > 1:
+        for i in range(len(case["warm"])):
+            yield dict(case, warm=case["warm"][:i] + case["warm"][i + 1:])
+    if len(case["warm_scales"]) > 1:
+        yield dict(case, warm_scales=[case["s"]])
+    if len(case["scales"]) > 1:
+        yield dict(case, scales=[case["s"]])
+        for sc in case["scales"]:
+            if sc != case["s"]:
+                yield dict(case, scales=[x for x in case["scales"] if x != sc])
+    if case["warm_cloud"] != "same":
+        yield dict(case, warm_cloud="same")
+    rows = case["cloud"]
+    n = len(rows)
+    for step in (n // 2, n // 4, 1):
+        if step < 1:
+            continue
+        for st in range(0, n, step):
+            drop = [tuple(r) for r in rows[st:st + step]]
+            yield dict(case, cloud=rows[:st] + rows[st + step:],
+                       nd_clouds=[[r for r in c if tuple(r) not in drop] for c in case["nd_clouds"]])
+
+
 def shrink(case):
     k = case["kind"]
+    if k == "derived":
+        yield from _shrink_derived(case)
+        return
     rows = case["cloud"]
     n = len(rows)
     if k in ("raw", "box"):
@@ -1277,4 +1852,6 @@ def search(rng, st, disagreements):
     for i in range(150):
         cases.append(_gen_frame(rng))
         cases.append(_gen_manager(rng))
+    for i in range(300):
+        cases.append(_gen_derived(rng))
     return cases
